@@ -43,7 +43,7 @@ from ..normalize import expand_locals
 from ..lib_C14 import (COPIER, CORE, EXPORT, FB, WRITER, Mini, Model, USet,
                        basin_loop, dewalrus, expand_partials,
                        expand_self_aliases, ifexp_to_if,
-                       inline_module_helpers,
+                       inline_module_helpers, method_mro,
                        Unknown, Unordered, base_names, cfg_ids,
                        classes_in, edge_guarded, enclosing_conditions,
                        fact_guard, fold, method, single_assign, stmt_of)
@@ -611,7 +611,7 @@ def r72(ctx, repo):
            if ok else "the feature of the basin dataset is returned without "
            "the mapping wrapper", node=stores[0] if stores else gi,
            label="proxy returns wrapper")
-    ln = method(bp, "__len__")
+    ln = method_mro(repo, FB, bp, "__len__")
     ok = ln is not None and any(isinstance(r, ast.Return) and txt(
         r.value) == "len(self.basinmap)" for r in walk(ln))
     ctx.ob("R7.2", ok, "len(BasinProxy) is the map length" if ok else
@@ -728,6 +728,23 @@ def r72(ctx, repo):
 
 
 # ----------------------------------------------------------------------
+#: functions the rules look for by name (never inlined)
+KEEP_EXPORT = ("store_filtered_feature", "yield_filtered_array_stacks",
+               "map_indices_child2root", "map_indices_child2parent",
+               "map_indices_parent2child", "map_indices_root2child",
+               "get_basin_classes", "hashobj", "hashfile")
+
+
+def store_basin_func(repo):
+    """RTDCWriter.store_basin with its private step methods inlined"""
+    if getattr(repo, "_c07_store_basin", None) is None:
+        repo._c07_store_basin = inline_module_helpers(
+            repo, WRITER, repo.func(WRITER, "RTDCWriter.store_basin"),
+            methods=True, keep=("store_feature", "write_text",
+                                "write_ndarray"))
+    return repo._c07_store_basin
+
+
 def retrieve_func(repo):
     """basins_retrieve with helpers inlined and partials expanded"""
     if getattr(repo, "_c07_retrieve", None) is None:
@@ -742,7 +759,7 @@ def export_func(repo):
     if getattr(repo, "_c07_export", None) is None:
         repo._c07_export = dewalrus(inline_module_helpers(
             repo, EXPORT, repo.func(EXPORT, "Export.hdf5"),
-            keep=("store_filtered_feature", "yield_filtered_array_stacks")))
+            methods=True, imports=True, depth=3, keep=KEEP_EXPORT))
     return repo._c07_export
 
 
@@ -792,11 +809,30 @@ def r73(ctx, repo):
     farr = [n.targets[0].id for n in walk(ex) if isinstance(n, ast.Assign)
             and isinstance(n.targets[0], ast.Name)
             and is_filter_all(n.value)]
-    if len(set(farr)) != 1:
+    if not farr:
         raise AnalysisError("Export.hdf5: filter array binding lost")
-    F = farr[0]
+    Fset = set(farr)
+    changed = True
+    while changed:           # names bound to the array by plain assignment
+        changed = False
+        for n in walk(ex):
+            if isinstance(n, ast.Assign) and len(
+                    n.targets) == 1 and isinstance(
+                    n.targets[0], ast.Name) and isinstance(
+                    n.value, ast.Name) and n.value.id in Fset \
+                    and n.targets[0].id not in Fset:
+                Fset.add(n.targets[0].id)
+                changed = True
+    lpnames = names_in(lp)
+    used = sorted(x for x in Fset if x in lpnames)
+    if len(used) > 1:
+        raise AnalysisError("Export.hdf5: several names for the filter "
+                            f"array in the basin loop ({used})")
+    F = used[0] if used else sorted(Fset)[0]
     sff = find_calls(ex, name="store_filtered_feature")
-    ok = bool(sff) and all(is_name(kwarg(c, "filtarr", 3), F) for c in sff)
+    ok = bool(sff) and all(isinstance(kwarg(c, "filtarr", 3), ast.Name)
+                           and kwarg(c, "filtarr", 3).id in Fset
+                           for c in sff)
     ctx.ob("R7.3", ok, f"events are filtered with `{F}`" if ok else
            f"events are not filtered with `{F}`", node=sff[0] if sff else ex,
            label="event filter array", nontrivial=False)
@@ -906,9 +942,13 @@ def r73(ctx, repo):
     dsn = [n.targets[0].id for n in walk(ex) if isinstance(n, ast.Assign)
            and isinstance(n.targets[0], ast.Name)
            and is_self_attr(n.value, "rtdc_ds")]
-    if len(set(dsn)) != 1:
+    if not dsn:
         raise AnalysisError("Export.hdf5: dataset binding lost")
-    dsn = dsn[0]
+    # (inlined helpers bind the dataset again under their own names)
+    top = [n.targets[0].id for n in ex.body if isinstance(n, ast.Assign)
+           and isinstance(n.targets[0], ast.Name)
+           and is_self_attr(n.value, "rtdc_ds")]
+    dsn = (top or dsn)[0]
     DS = expand_locals(ex, _expr(dsn))
     ROOT = expand_locals(ex, _expr(f"{dsn}.get_root_parent()"))
 
@@ -1138,7 +1178,7 @@ def stmt_of_if(node):
 
 
 def r73_writer(ctx, repo):
-    sb = repo.func(WRITER, "RTDCWriter.store_basin")
+    sb = store_basin_func(repo)
     g = CFG(sb)
     MAPN = "basin_map"
     bd = [n for n in walk(sb) if isinstance(n, ast.Assign) and isinstance(
@@ -1438,7 +1478,7 @@ def r75(ctx, repo):
     if n_loc < 2:
         raise AnalysisError("Export.hdf5: location lists of the exported "
                             "dataset not found")
-    sb = repo.func(WRITER, "RTDCWriter.store_basin")
+    sb = store_basin_func(repo)
     # what is stored for a file basin when verify is off: the list that
     # becomes b_data["paths"] on the branch basin_type == "file"
     plists = set()
